@@ -50,6 +50,8 @@ class Opts:
         self.steps_out_of_file_order = False  # ProfilerStep annotations are written after the operators, latest first
         self.n_extra_ops = None  # number of run-specific operator names (None: 0-3); large values give a wide vocabulary
         self.p_dual_cat = 0.0  # an operator name also occurs as a user_annotation (same name, two categories)
+        self.step_base = 10  # number of the first ProfilerStep annotation (9 makes the numbers cross a digit boundary: 9, 10, 11)
+        self.p_orphan_no_corr = 0.0  # an orphan device activity carries no correlation id at all (the loader stores -1)
         self.first_op_in_step = False  # the first event of the file (a host operator) lies inside the first profiler step, so event id 0 carries an iteration number
         self.p_frac_kernel_dur = 0.0  # device activities whose duration is not a whole number while every timestamp is (the loader rounds only files with fractional timestamps)
         self.noncomplete_events = True  # False: every entry of the file has a duration, so the loader stores `dur` (and ids) in the narrowest integer type
@@ -161,7 +163,7 @@ def gen_rank(rng: random.Random, o: Opts, rank: int = 0) -> List[Dict[str, Any]]
         start = o.base if (s == 0 and o.first_op_in_step) else t
         end = t + step_len
         if o.steps > 0:
-            evs.append(synth.profiler_step(10 + s, start, end - start, tid=main_tid))
+            evs.append(synth.profiler_step(o.step_base + s, start, end - start, tid=main_tid))
         fill(start, end, 1, main_tid, evs)
         for th in range(1, o.n_threads):
             fill(start + q, end - q, 1, main_tid + th, evs)
@@ -174,6 +176,8 @@ def gen_rank(rng: random.Random, o: Opts, rank: int = 0) -> List[Dict[str, Any]]
             s = rng.choice(sorted(stream_free))
             kernels.append(synth.kernel(rng.choice(kernel_names), stream_free[s] + q, q * rng.randint(1, 3), s, new_corr()))
             stream_free[s] = kernels[-1]["ts"] + kernels[-1]["dur"]
+            if rng.random() < o.p_orphan_no_corr:
+                del kernels[-1]["args"]["correlation"]
     if o.steps_out_of_file_order and o.steps > 1:
         steps_ev = [e for e in evs if str(e.get("name", "")).startswith("ProfilerStep#")]
         evs = [e for e in evs if e not in steps_ev] + list(reversed(steps_ev))
